@@ -73,6 +73,16 @@ func c03Input(r *fw.Rand) (string, string) {
 	default:
 		head, fam = "^st"+r.Pick([]string{"力量60敏捷70", "力量:60 敏捷=70", "力量+1d4", "力量-=2 敏捷+=3", "&手枪=1d6+2", "属性*2.5:5", "'力量 1':3", "力量60"}), "st"
 	}
+	if r.P(1, 8) {
+		// heads whose last construct can take a continuation (further clause, operand, index, call):
+		// the text after it starts like one and then breaks off
+		pre := r.Pick([]string{"", "", "a = 0; b = 1; ", "x = [1, 2]; ", "&cv = d6; "})
+		last := r.Pick([]string{"0 ? 1", "1 ? 2", "a ? 'x'", "0 ? 1, 0 ? 2", "1 ? 2, 0 ? 3", "b ? 1, a ? 2", "0 || 0", "1 && 0", "a ?? 3", "x", "[1, 2]", "{'k': 1}", "f", "1 + 2", "d6", "x[0]", "-1", "`t{a}`", "'s'", "3 > 2", "cv"})
+		op := r.Pick([]string{",", ", ", " ,", "||", " || ", "&&", " && ", "?", " ? ", ":", " : ", "+", " + ", "-", "*", "[", "(", ".", "..", "??", " ?? ", "|", "&", "=", "==", " == ", "<", ",,", ";", "\n"})
+		operand := r.Pick([]string{"d20", "2d6", "b", "x", "3", "d100 理由", "[d4]", "f(d6)", "cv", "(d8", "`{d10}`", "'s", "a = d12", "力量"})
+		brk := r.Pick([]string{"", " ?", " ? )", " ? 1 :", " :", "(", "[", " 理由", " ? d4", ",", " ? 1, ", ")", "]"})
+		return pre + last + op + operand + brk, "continuation"
+	}
 	var tail string
 	switch r.Intn(6) {
 	case 0, 1, 2:
